@@ -2302,6 +2302,40 @@ static long double eval_double2(Node *node) {
   error_tok(node->tok, "not a compile-time constant");
 }
 
+// Build a compare-and-swap node.  The desired value is converted to the
+// type of the object.  lock cmpxchg compares general-purpose registers,
+// so a float or double object is handled as an integer of the same size
+// that holds the same bits:
+//
+//   (tmp = new, cas((I *)addr, (I *)old, *(I *)&tmp))
+static Node *new_cas(Node *addr, Node *old, Node *new, Token *tok) {
+  Node *cas = new_node(ND_CAS, tok);
+  cas->cas_addr = addr;
+  cas->cas_old = old;
+  cas->cas_new = new;
+
+  add_type(addr);
+  add_type(old);
+  if (addr->ty->kind != TY_PTR || old->ty->kind != TY_PTR)
+    return cas; // add_type() reports it
+
+  Type *ty = addr->ty->base;
+  if (is_numeric(ty) || ty->kind == TY_PTR)
+    cas->cas_new = new_cast(new, ty);
+  if (ty->kind != TY_FLOAT && ty->kind != TY_DOUBLE)
+    return cas;
+
+  Type *ity = pointer_to(ty->kind == TY_FLOAT ? ty_int : ty_long);
+  Obj *tmp = new_lvar("", ty);
+  Node *set = new_binary(ND_ASSIGN, new_var_node(tmp, tok), cas->cas_new, tok);
+  cas->cas_addr = new_cast(addr, ity);
+  cas->cas_old = new_cast(old, ity);
+  cas->cas_new = new_unary(ND_DEREF,
+                           new_cast(new_unary(ND_ADDR, new_var_node(tmp, tok), tok), ity),
+                           tok);
+  return new_binary(ND_COMMA, set, cas, tok);
+}
+
 // Convert op= operators to expressions containing an assignment.
 //
 // In general, `A op= C` is converted to ``tmp = &A, *tmp = *tmp op B`.
@@ -2386,10 +2420,9 @@ static Node *to_assign(Node *binary) {
     loop->then = new_node(ND_BLOCK, tok);
     loop->then->body = new_unary(ND_EXPR_STMT, body, tok);
 
-    Node *cas = new_node(ND_CAS, tok);
-    cas->cas_addr = new_var_node(addr, tok);
-    cas->cas_old = new_unary(ND_ADDR, new_var_node(old, tok), tok);
-    cas->cas_new = new_var_node(new, tok);
+    Node *cas = new_cas(new_var_node(addr, tok),
+                        new_unary(ND_ADDR, new_var_node(old, tok), tok),
+                        new_var_node(new, tok), tok);
     loop->cond = new_unary(ND_NOT, cas, tok);
 
     cur = cur->next = loop;
@@ -3444,15 +3477,14 @@ static Node *primary(Token **rest, Token *tok) {
   }
 
   if (equal(tok, "__builtin_compare_and_swap")) {
-    Node *node = new_node(ND_CAS, tok);
     tok = skip(tok->next, "(");
-    node->cas_addr = assign(&tok, tok);
+    Node *addr = assign(&tok, tok);
     tok = skip(tok, ",");
-    node->cas_old = assign(&tok, tok);
+    Node *old = assign(&tok, tok);
     tok = skip(tok, ",");
-    node->cas_new = assign(&tok, tok);
+    Node *new = assign(&tok, tok);
     *rest = skip(tok, ")");
-    return node;
+    return new_cas(addr, old, new, start);
   }
 
   if (equal(tok, "__builtin_atomic_exchange")) {
